@@ -56,7 +56,7 @@ man = {
     "hooks": {"guard": "BASICTDF_VERIF",
               "enable": "no hook lives in the repository: monitors are attached from /verif at import time "
                         "(class attributes wrapped in place, audit hook, sys.monitoring); ./check exports BASICTDF_VERIF=1",
-              "baseline_off_cmd": "cd /repo && /venv/bin/python -m pytest -ra -q -p no:cacheprovider --timeout=900 --continue-on-collection-errors",
+              "baseline_off_cmd": "cd /repo && /venv/bin/python -m pytest -ra -q -p no:cacheprovider --timeout=900 --continue-on-collection-errors --junitxml=/verif/out/baseline_off.junit.xml",
               "source_commits": [], "add_only": True},
     "engines": [{"name": "vf", "path": "vf/", "serves_properties": [c["property_id"] for c in checks],
                  "kind_free_text": "runtime monitors + reference codec + sequential models, /venv/bin/python against /repo/src"}],
